@@ -20,8 +20,8 @@ Obligations, from an arbitrary state satisfying Rep (children over every partiti
                  unchanged, Rep holds afterwards
    is_true / is_false                      the child that is asked holds a subset-equivalent view: its constraints are implied by G
    branch / split / simplify               Rep for both sides; no child is owned by two composites afterwards
-The input class of the recorded finding rtc:composite/ensure-sat-skipped-with-extras (extra constraints given AND the constraints without them
-already unsatisfiable) is excluded from the value-set clause and nothing else.
+(Round 3: the value clause failed for extra constraints given on an already unsatisfiable constraint set - the recorded finding
+"ensure-sat-skipped-with-extras" - and holds without any exclusion since the repair of _ensure_sat.)
 """
 from __future__ import annotations
 
@@ -421,9 +421,6 @@ def ob_composite(method, tier="quick", part=None):
                     if method in ("is_true", "is_false"):
                         c.check(label + "/child-view-implied", (G & ~conj(k.constraints)) == 0, "the child that was asked holds a constraint that the solver's constraints do not imply")
                     else:
-                        # known finding rtc:composite/ensure-sat-skipped-with-extras: with extra constraints the global satisfiability is not checked
-                        if x:
-                            c.known("rtc:composite/ensure-sat-skipped-with-extras", G == 0)
                         for bitval in (0, 1):
                             ev = e.table if bitval else ~e.table
                             c.check(label + "/same-values", ((K & ev) != 0) == ((GX & ev) != 0),
